@@ -6,6 +6,7 @@ package shwap_test
 import (
 	"bytes"
 	"context"
+	"encoding/json"
 	"fmt"
 	"testing"
 
@@ -314,14 +315,32 @@ func TestVerifC02_NamespaceData(t *testing.T) {
 			}
 			resp = dec
 		}
+		wire := "stream"
 		if ok && family != "bytes" && family != "honest" {
-			// only wire-representable responses are judged
-			var buf bytes.Buffer
-			if _, err := resp.WriteTo(&buf); err != nil {
-				ok = false
-			} else {
+			// a response reaches the verifier through the shrex stream encoding, through the JSON
+			// form (RPC clients) or as a value built by a getter; all three are judged
+			wire = rapid.SampledFrom([]string{"stream", "stream", "json", "direct"}).Draw(t, "wire")
+			switch wire {
+			case "stream":
+				var buf bytes.Buffer
+				if _, err := resp.WriteTo(&buf); err != nil {
+					ok = false
+				} else {
+					var dec shwap.NamespaceData
+					if _, err := dec.ReadFrom(bytes.NewReader(buf.Bytes())); err != nil {
+						ok = false
+					} else {
+						resp = dec
+					}
+				}
+			case "json":
+				js, err := json.Marshal(resp)
+				if err != nil {
+					ok = false
+					break
+				}
 				var dec shwap.NamespaceData
-				if _, err := dec.ReadFrom(bytes.NewReader(buf.Bytes())); err != nil {
+				if err := json.Unmarshal(js, &dec); err != nil {
 					ok = false
 				} else {
 					resp = dec
@@ -335,7 +354,13 @@ func TestVerifC02_NamespaceData(t *testing.T) {
 			changes = vk.SharesBytesEqual(resp.Flatten(), refShares) != nil || len(resp) != len(refRows) || swapsKind(resp, honest)
 			verr := safeVerify(func() error { return resp.Verify(sq.Roots, ns) })
 			if p, isPanic := verr.(panicErr); isPanic {
-				t.Fatalf("C02 NamespaceData.Verify panicked on a decoded response (family %s, ns %s, %s): %v", family, vk.NsShort(ns), sq.Desc(), p.v)
+				if wire == "direct" {
+					// a value no decoder produced: a panic is not judged, acceptance of wrong data is
+					vk.Count("panic_on_direct_value", 1)
+					verr = fmt.Errorf("panic: %v", p.v)
+				} else {
+					t.Fatalf("C02 NamespaceData.Verify panicked on a decoded response (family %s, wire %s, ns %s, %s): %v", family, wire, vk.NsShort(ns), sq.Desc(), p.v)
+				}
 			}
 			if verr == nil {
 				accepted = true
@@ -366,7 +391,7 @@ func TestVerifC02_NamespaceData(t *testing.T) {
 		}
 		nontrivial := (family == "honest" && (len(refRows) >= 2 || class == "absent-between")) || (ok && changes && family != "honest")
 		labels := []string{"nd:" + family, "ns=" + class, fmt.Sprintf("ods=%d", sq.ODS), fmt.Sprintf("accepted=%v", accepted),
-			fmt.Sprintf("nsrows=%d", min(3, len(refRows))), fmt.Sprintf("applicable=%v", ok)}
+			fmt.Sprintf("nsrows=%d", min(3, len(refRows))), fmt.Sprintf("applicable=%v", ok), "wire=" + wire}
 		if len(refShares) > 0 && len(refShares)%sq.ODS == 0 && len(refRows)*sq.ODS == len(refShares) {
 			labels = append(labels, "ns-fills-whole-rows")
 		}
